@@ -287,7 +287,7 @@ func h2Scenario1(seed int64, idx int, dir string, acts []h2Act, ca *harnessCA, c
 				if uint32(f.Length) > maxFrame {
 					sc.problem(fmt.Sprintf("C09:maxframe: DATA frame of %d octets exceeds the receiver's SETTINGS_MAX_FRAME_SIZE %d", f.Length, maxFrame))
 				}
-				if n > grantS[f.StreamID] || n > grantC {
+				if n > 0 && (n > grantS[f.StreamID] || n > grantC) { // an empty frame consumes no credit, whatever the window
 					sc.problem(fmt.Sprintf("C09:window: %d octets on stream %d exceed the credit granted (stream %d, connection %d)", n, f.StreamID, grantS[f.StreamID], grantC))
 				}
 				grantS[f.StreamID] -= n
